@@ -338,6 +338,20 @@ def run(report, tier, seed):
                 "display strings); reference = the same call under the shipped defaults; distinct by (operation, changed keys)",
         "translator": "ok" if tr_ok else "failed",
     })
+    # ---- construction WITHOUT names of exponents with an unused leading column (known finding D46): the columns are named
+    #      by position, so pruning the unused one before the default names are given shifts the others
+    try:
+        numpoly.set_options(**defaults)
+        ref_ = snapshot(numpoly.polynomial({(0, 1): 3}))
+        with numpoly.global_options(retain_names=False):
+            got_ = snapshot(numpoly.polynomial({(0, 1): 3}))
+        if got_ != ref_:
+            viol.append(("construct:no-names-pruned", f"numpoly.polynomial({{(0, 1): 3}}) is {got_} under retain_names=False and {ref_} under the defaults",
+                         {"input": "polynomial({(0, 1): 3})"}))
+    except Exception as exc:  # noqa: BLE001
+        viol.append(("construct:no-names-pruned:raise", f"numpoly.polynomial({{(0, 1): 3}}) raised {type(exc).__name__}: {exc}", {}))
+    finally:
+        numpoly.set_options(**defaults)
     seen = set()
     for kind, what, rep in viol:
         kf = report.match_known(kind)
